@@ -32,3 +32,15 @@ chk("C16", "exploration",
     "The reference language is third_party/propertyparser.peg plus end of input, with '^' as the only modifier; the '*' modifier is undocumented.",
     "bounded exhaustive enumeration of strings (all layouts, all single edits) against a reference recogniser, on the real implementation",
     "DESIGN.md §3 C16")
+
+chk("C17", "exploration",
+    "Deviation-bounded exhaustive enumeration: every single structured mutation of 6 seed profiles and 6 seed documents (every YAML/JSON tree position x a menu of wrong-kind values, key deletions/renames/duplications, JSON-LD keyword substitutions, whole-document specials), every raw string up to length 2/3 over the YAML and JSON structural alphabets, and (thorough) every pair of a profile and a data mutation, through all five entry points with and without an event channel; a recover() around each call observes panics, a watchdog observes blocking.",
+    "'arbitrary byte strings' is bounded to k structured deviations from the seeds and raw strings of length <=3; no coverage-guided fuzzing (different family).",
+    "deviation-bounded exhaustive enumeration of environment answers (the two input texts) on the real entry points",
+    "DESIGN.md §3 C17")
+
+chk("C04", "exploration",
+    "Exhaustive enumeration of unreadable data: all byte strings up to length 3/4 over the JSON structural alphabet, every prefix and single-byte deletion of three valid documents, non-JSON formats and encodings, and a menu of JSON-LD keyword misuses at three depths, against 3 compiled profiles through the four library entry points and the built CLI; each input is classified independently (own JSON recogniser cross-checked with encoding/json; json-gold called directly) and every unreadable or rejected input must yield an error and no report.",
+    "json-gold is the definition of 'JSON-LD rejects'; the CLI is exercised on a subset (all of classes b-d sampled by offset, strings of length <=2).",
+    "bounded exhaustive enumeration of malformed inputs x entry points with an independent classifier",
+    "DESIGN.md §3 C04")
